@@ -6,6 +6,7 @@ let name_of = function
 let kind_of = function "kf" -> KF | "ukf" | "ukfg" -> UKF | "boot" | "boot2" -> Boot | "gpf" -> GPF | s -> failwith ("kind " ^ s)
 let op_of (tok : string) : op =
   match tok with
+  | "freeze" -> OpFreeze
   | "predict" -> OpPredict false
   | "correct" -> OpCorrect false
   | "predict!" -> OpPredict true      (* output object of another shape *)
@@ -19,8 +20,12 @@ let flags_str (f : flags) =
   Printf.sprintf "P=%s,S=%s,E=%s" (b01 f.f_pred) (b01 f.f_state) (match f.f_exo with Some e -> b01 e | None -> "-")
 let mode_str = function MCopy -> "copy" | MFull -> "full" | MStateOnly -> "stateonly" | MExoOnly -> "exoonly" | MNothing -> "nothing"
 let step_str = function
-  | OInput -> "identity" | OOld | OOldOther -> "untouched" | OSliced -> "sliced" | ORan (_, m) -> mode_str m | OCorrected _ -> "run"
-let obs_str = function
+  | OInput -> "identity" | OOld | OOldOther -> "untouched" | OSliced -> "sliced" | ORan (_, m) -> mode_str m | OCorrected (_, _) -> "run"
+let obs_str stream = function
+  | ObsFreeze n ->
+      (* freeze_measurements is forwarded whatever the skip flags are: the source is where the never-skipped twin's is;
+         the harness' stream sensor also reports how many freeze calls it received *)
+      Printf.sprintf "freeze=true,meas=same,n=%s" (if stream then string_of_int (int_of_nat n) else "-")
   | ObsSkip (r, f) -> Printf.sprintf "r=%s,%s" (match r with Ok true -> "true" | Ok false -> "false" | Throws -> "throw") (flags_str f)
   | ObsStep o -> step_str o
 (* compact form of the observations of "<commands> predict correct" *)
@@ -31,6 +36,7 @@ let compress have (obs : obs list) : string =
       | ObsSkip (r, f) ->
           Buffer.add_char rs (match r with Ok true -> 't' | Ok false -> 'f' | Throws -> 'x');
           fl := flags_str f
+      | ObsFreeze _ -> Buffer.add_char rs 'z'
       | ObsStep o -> steps := step_str o :: !steps)
     obs;
   String.concat "," (Buffer.contents rs :: !fl :: List.rev !steps)
@@ -38,8 +44,8 @@ let () =
   let cases = Caseio.read_records "case" stdin in
   List.iter
     (fun (c : Caseio.case) ->
-      (* boot2: the exogenous model is given to DrawParticles' two-argument constructor, which only stores it;
-         the state model has none (C13_Model.init_of ViaDrawParticlesCtor = init false) *)
+      (* boot2: the exogenous model is given to DrawParticles' two-argument constructor (attach=1: which attaches it
+         to the state model, C13_Model.init_of ViaDrawParticlesCtor = init true) *)
       let have = Caseio.meta c "exo" = "1" && (c.kind <> "boot2" || Caseio.meta c "attach" = "1") in
       let k = kind_of c.kind in
       Caseio.out_begin c.id;
@@ -52,13 +58,13 @@ let () =
         for w = 0 to total - 1 do
           let idx = Array.make ext 0 and r = ref w in
           for i = ext - 1 downto 0 do idx.(i) <- !r mod a; r := !r / a done;
-          let ops = List.map op_of (prefix @ Array.to_list (Array.map (fun i -> alpha.(i)) idx) @ [ "predict"; "correct" ]) in
+          let ops = List.map op_of (("freeze" :: prefix) @ Array.to_list (Array.map (fun i -> alpha.(i)) idx) @ [ "predict"; "correct" ]) in
           res := compress have (c13_run k have ops) :: !res
         done;
         Caseio.out_word "enum" (List.rev !res)
       end else begin
         let ops = List.map op_of (if Caseio.has c "ops" then Caseio.get_word c "ops" else []) in
-        Caseio.out_word "trace" (("init," ^ flags_str (init have)) :: List.map obs_str (c13_run k have ops))
+        Caseio.out_word "trace" (("init," ^ flags_str (init have)) :: List.map (obs_str (Caseio.meta c "sensor" <> "sim")) (c13_run k have ops))
       end;
       Caseio.out_end ())
     cases
